@@ -107,6 +107,24 @@ Theorem global_state_isolated : forall sec tr seed,
 Proof. exact ReproFacts.global_state_isolated_l. Qed.
 Print Assumptions global_state_isolated.
 
+(* Erased keys (the copy-back chain: run k+1 is seeded with run k's FINAL state, i.e. copy-back REPLACES the selected
+   state): a key that a node of run 1 erased, and that run 1 never writes, is not in run 1's final state - so it is not in
+   the seed of a run chained after it, nor (if that run does not write it either) in that run's final state.  A copy-back
+   that merges instead of replacing is outside this model; the driver's one-context chain (units 48) tests it. *)
+Theorem erased_key_gone : forall sec1 tr1 seed i t rest k val,
+  In (12 :: i :: t :: rest) tr1 -> In (3, k, val) (gsops_of sec1 i) -> ~ In k (written_keys sec1) ->
+  ~ In k (gs_keys (final_gs sec1 tr1 seed)) /\
+  (forall sec2 tr2, ~ In k (written_keys sec2) -> ~ In k (gs_keys (final_gs sec2 tr2 (final_gs sec1 tr1 seed)))).
+Proof. exact ReproFacts.erased_key_gone_l. Qed.
+Print Assumptions erased_key_gone.
+
+(* non-vacuity: a program whose node 0 erases key 3 (seeded, never written) *)
+Example ex_erased_key :
+  let sec := [[1; 1; 4]; [2; 0; 0; 1; 1; 0; 0]; [3; 0; -2; 6; 1; 0]; [4; 0; 3; 3; 0]; [4; 0; 2; 1; 5]; [6; 3; 9]; [6; 1; 2]] in
+  In [12; 0; 1; 0; 0; 0] (run_core0 sec) /\ In (3, 3, 0) (gsops_of sec 0) /\ ~ In 3 (written_keys sec) /\
+  gs_keys (seed_of sec) = [1; 3] /\ gs_keys (final_gs sec (run_core0 sec) (seed_of sec)) = [1].
+Proof. vm_compute. repeat split; auto. intros [H|H]; [discriminate|destruct H]. Qed.
+
 (* ---- 4. the registries only grow, and growth is unobservable ---- *)
 Theorem registry_growth_unobservable : forall (more : list Z) (tbl : list Z),
   (forall id v, resolve tbl id = Some v -> resolve (fst (intern_all more tbl)) id = Some v) /\
